@@ -1087,6 +1087,20 @@ theorem C05_inline_total (crit : OpId → Bool) (m : FModel) (hv : validF m = tr
       exact m2
   exact ⟨hrun, by unfold inlineModel; rw [if_pos hrun]⟩
 
+/-- non-vacuity of `C05_inline_total`: the run of the valid nested model below does not raise ... -/
+example : (inlineRun (fun _ => true) ⟨.mk [0] [2, 3] [] [.mk ⟨"l", "F", ""⟩ [] [some 0] [2, 3] []],
+    [⟨⟨"l", "F", ""⟩, [], [10], [11, 12], [.mk ⟨"l", "G", ""⟩ [] [some 10] [11, 12] []], []⟩,
+     ⟨⟨"l", "G", ""⟩, [], [20], [21, 20], [.mk ⟨"", "Neg", ""⟩ [] [some 20] [21] []], []⟩], []⟩).st.raised = false := by
+  decide
+
+/-- ... and `raised` is not vacuous: G returns its second input, F calls G without it (a valid model: the real pass
+    raises on it, the model of the pass predicts that and answers with the unchanged model) -/
+example : (validF ⟨.mk [0] [2] [] [.mk ⟨"l", "G", ""⟩ [] [some 0] [2, 3] []],
+    [⟨⟨"l", "G", ""⟩, [], [20, 22], [21, 22], [.mk ⟨"", "Neg", ""⟩ [] [some 20] [21] []], []⟩], []⟩ &&
+    (inlineRun (fun _ => true) ⟨.mk [0] [2] [] [.mk ⟨"l", "G", ""⟩ [] [some 0] [2, 3] []],
+    [⟨⟨"l", "G", ""⟩, [], [20, 22], [21, 22], [.mk ⟨"", "Neg", ""⟩ [] [some 20] [21] []], []⟩], []⟩).st.raised) = true := by
+  decide
+
 /-- non-vacuity of `C05_inline`: the criterion keeps F and accepts G; F (kept) calls G, the main graph calls F and G.
     The run has a result (`runOK`), G is inlined into the main graph and into the body of F and deleted, the call to
     F stays -/
